@@ -51,10 +51,27 @@
    pointer as a fixnum" branches instead of exploring them.  Immediates (integer-cast
    pointers) take the original expression. */
 #ifndef KIT_NATIVE
+/* the tag bits (low 8 bits at most) of any pointer-typed word are the low bits of its offset part:
+   CBMC's pointer bit-vector is object-id(12 bits) || offset(52 bits), and an integer cast to a
+   pointer keeps its bits.  pointer_offset() folds for addresses of objects, for if-then-else
+   mixes of such addresses, and for integer constants. */
 static inline sexp_uint_t verif_tagword(const void *x) {
-  return __CPROVER_POINTER_OBJECT(x) != __CPROVER_POINTER_OBJECT((void*)0)
-    ? (sexp_uint_t)__CPROVER_POINTER_OFFSET(x) : (sexp_uint_t)x;
+  return (sexp_uint_t)__CPROVER_POINTER_OFFSET(x);
 }
+/* equality with an immediate constant (#f, (), ...): the simplifier does not decide
+   `address == (sexp)constant` nor `(sexp)c1 == (sexp)c2`, but it decides the offsets; the second
+   conjunct keeps the expression an exact equivalence of `x == k`. */
+static inline _Bool verif_imm_eq(const void *x, const void *k) {
+  return __CPROVER_POINTER_OFFSET(x) == __CPROVER_POINTER_OFFSET(k) && (sexp_uint_t)x == (sexp_uint_t)k;
+}
+#undef sexp_truep
+#undef sexp_not
+#undef sexp_nullp
+#undef sexp_booleanp
+#define sexp_truep(x)    (!verif_imm_eq((const void*)(x), (const void*)SEXP_FALSE))
+#define sexp_not(x)      (verif_imm_eq((const void*)(x), (const void*)SEXP_FALSE))
+#define sexp_nullp(x)    (verif_imm_eq((const void*)(x), (const void*)SEXP_NULL))
+#define sexp_booleanp(x) (verif_imm_eq((const void*)(x), (const void*)SEXP_TRUE) || verif_imm_eq((const void*)(x), (const void*)SEXP_FALSE))
 #undef sexp_pointerp
 #undef sexp_fixnump
 #undef sexp_isymbolp
